@@ -18,6 +18,8 @@ pub fn strip(input: &[u8]) -> Result<bool, String> {
         ("StripBytes::strip_next", strip_bytes_incremental_one(input)?),
         ("StripStream<Vec<u8>>::write_all", strip_stream_write_all(input)?),
         ("AutoStream::never(Vec<u8>)::write_all", auto_never_write_all(input)?),
+        ("strip_bytes: next() once, then into_vec()", strip_bytes_next_then_into_vec(input, 1)),
+        ("strip_bytes: next() twice, then into_vec()", strip_bytes_next_then_into_vec(input, 2)),
     ];
     if valid {
         // SAFETY-free: validated above by R-UTF8, cross-checked by std here
@@ -27,6 +29,9 @@ pub fn strip(input: &[u8]) -> Result<bool, String> {
         outs.push(("strip_str().to_string()", strip_str_to_string(s)));
         outs.push(("strip_str() Display", strip_str_display(s)));
         outs.push(("StripStr::strip_next", strip_str_incremental_one(s)?));
+        outs.push(("strip_str: next() once, then to_string()", strip_str_next_then_display(s, 1)));
+        outs.push(("strip_str: next() twice, then to_string()", strip_str_next_then_display(s, 2)));
+        outs.push(("strip_str: next() three times, then to_string()", strip_str_next_then_display(s, 3)));
     }
     // O2: forbidden bytes
     for (name, out) in &outs {
